@@ -2448,7 +2448,9 @@ class GattServer(GattLayer):
                 for i in range(max_nb_items):
                     if i < len(attrs_handles):
                         handle = attrs_handles[i]
-                        end_handle = attrs[handle].end_handle
+                        # Attributes that are not grouping ones (descriptors)
+                        # end with themselves
+                        end_handle = getattr(attrs[handle], 'end_handle', handle)
                         attr_uuid = attrs[handle].uuid
                         if len(attr_uuid.packed) == uuid_size:
                             datalist.append(
